@@ -32,6 +32,15 @@ CLAIMED = {
         note="Trusted: Coq kernel, translator, harness; hashlib/xxhash implement the named algorithms and the streaming law (oracle, checked differentially).",
         technique="Coq proof (induction over read scripts, parametric in the hash) + AST-generated loop kernel + differential correspondence",
         design="7/C16"),
+    "C17": dict(
+        text="Coq theorems over a model of PurePosixPath parsing/joining/lexical normalisation with the four validators (FileInfo.file_path, "
+             "ShardsList.relative_path_self, ShardListInfo, filler sub-directory) regenerated from the source: for every root and every path string, "
+             "an accepted path joined to the root stays inside the root; likewise root/split/sub/file for every accepted sub-directory. "
+             "Tie: the path model and the generated validators are compared with pathlib and the real pydantic models on generated strings; crafted datasets "
+             "with hostile paths at every metadata site (checksums made consistent) are opened/checked/iterated/continued under an audit hook: no file outside the root may be opened or created.",
+        note="Trusted: Coq kernel, translator, harness; pathlib semantics (compared on every generated string); pydantic runs the validators on load; symlinks out of scope. That all read sites use validated paths is shown by audit runs, not by theorem.",
+        technique="Coq proof (all strings) over AST-generated validators + differential correspondence with pathlib + audit-hook fault injection",
+        design="7/C17"),
 }
 REASON_TODO = "not yet built: the Coq model/theorems for this property are scheduled later in the build order of DESIGN.md section 10; nothing is claimed until its check exists"
 
